@@ -1,19 +1,18 @@
 CONSTANTS K = 2
-TYS = {"Z","X"}
-PHS = {0,1,4,7}
+TYS = {"Z","X","Hbox"}
+PHS = {0,1,2,3,4,5,6,7}
 ETS = {"N","H"}
 NB = 2
 VARS = {}
-BB = TRUE
+BB = FALSE
 SCN = 1
-CMS = {"zero","distinct"}
+CMS = {"rows"}
 MUT = "none"
 INIT Init
 NEXT Next
 INVARIANT NoPanicRT
 INVARIANT DocOK
 INVARIANT RoundTripIso
-INVARIANT RoundTripDen
 INVARIANT ScalarRT
 INVARIANT DecodeOrder
 INVARIANT IsoAgree
